@@ -95,8 +95,9 @@ type DefaultClientDispatcher struct {
 	onRequestCancel     func(requestID string, request ocpp.Request, err *ocpp.Error)
 	timer               *time.Timer
 	paused              bool
-	stopped             bool       // set by Stop until the next Start: requestChannel is closed
-	completeMutex       sync.Mutex // makes CompleteRequest atomic: a reply and the timeout of the same request may be handled at the same time
+	stopped             bool          // set by Stop until the next Start: requestChannel is closed
+	pumpDone            chan struct{} // closed by the message pump of the current (or last) session when it has left
+	completeMutex       sync.Mutex    // makes CompleteRequest atomic: a reply and the timeout of the same request may be handled at the same time
 	timeout             time.Duration
 }
 
@@ -125,8 +126,18 @@ func (d *DefaultClientDispatcher) SetTimeout(timeout time.Duration) {
 }
 
 func (d *DefaultClientDispatcher) Start() {
+	// The message pump of a stopped session must be gone before the next one begins: it notices Stop on its own
+	// time (it may be busy in an application callback or a write), re-initialises the queue and the pending state when
+	// it leaves, and until then it works on the dispatcher's fields, which belong to the new session from here on.
+	d.mutex.RLock()
+	prev, stopped := d.pumpDone, d.stopped
+	d.mutex.RUnlock()
+	if prev != nil && stopped {
+		<-prev
+	}
 	d.mutex.Lock()
 	defer d.mutex.Unlock()
+	d.pumpDone = make(chan struct{})
 	d.requestChannel = make(chan bool, 1)
 	d.paused = false
 	d.stopped = false
@@ -136,7 +147,7 @@ func (d *DefaultClientDispatcher) Start() {
 	default:
 	}
 	d.timer = time.NewTimer(defaultTimeoutTick) // Default to 24 hours tick
-	go d.messagePump()
+	go d.messagePump(d.pumpDone)
 }
 
 func (d *DefaultClientDispatcher) IsRunning() bool {
@@ -190,7 +201,8 @@ func (d *DefaultClientDispatcher) SendRequest(req RequestBundle) error {
 	return nil
 }
 
-func (d *DefaultClientDispatcher) messagePump() {
+func (d *DefaultClientDispatcher) messagePump(done chan struct{}) {
+	defer close(done)
 	rdy := true // Ready to transmit at the beginning
 
 	reqChan := func() chan bool {
@@ -425,6 +437,7 @@ type DefaultServerDispatcher struct {
 	timerC              chan timeoutToken
 	running             bool
 	stoppedC            chan struct{}
+	pumpDone            chan struct{} // closed by the message pump of the current (or last) session when it has left
 	onRequestCancel     CanceledRequestHandler
 	network             ws.Server
 	mutex               sync.RWMutex
@@ -464,13 +477,22 @@ func NewDefaultServerDispatcher(queueMap ServerQueueMap) *DefaultServerDispatche
 }
 
 func (d *DefaultServerDispatcher) Start() {
+	// The message pump of a stopped session must be gone before the next one begins: it re-initialises the
+	// queues when it leaves, and until then it works on the queues and the pending state of the dispatcher.
+	d.mutex.RLock()
+	prev, running := d.pumpDone, d.running
+	d.mutex.RUnlock()
+	if prev != nil && !running {
+		<-prev
+	}
 	d.mutex.Lock()
 	defer d.mutex.Unlock()
 	d.requestChannel = make(chan string, 20)
 	d.timerC = make(chan timeoutToken, 10)
 	d.stoppedC = make(chan struct{}, 1)
+	d.pumpDone = make(chan struct{})
 	d.running = true
-	go d.messagePump(d.stoppedC, d.timerC)
+	go d.messagePump(d.stoppedC, d.timerC, d.pumpDone)
 }
 
 func (d *DefaultServerDispatcher) IsRunning() bool {
@@ -561,7 +583,8 @@ func (d *DefaultServerDispatcher) SendRequest(clientID string, req RequestBundle
 // This method is executed by a dedicated coroutine as soon as the server is started and runs indefinitely.
 //
 // stoppedC and timerC are the channels of this session: Start replaces the fields for the next one.
-func (d *DefaultServerDispatcher) messagePump(stoppedC chan struct{}, timerC chan timeoutToken) {
+func (d *DefaultServerDispatcher) messagePump(stoppedC chan struct{}, timerC chan timeoutToken, done chan struct{}) {
+	defer close(done)
 	var clientID string
 	var ok bool
 	var rdy bool
